@@ -320,6 +320,7 @@ Plan generate(const std::string &mode, u64 seed, u64 index) {
     if (mode == "lz4") return gen_lz4(seed);
     if (mode == "lz4c") return gen_lz4c(seed);
     if (mode == "conc") return gen_conc(seed);
+    if (mode == "concneg") return gen_concneg(seed);
     if (mode == "fuzzreg") return gen_fuzzreg(index);
     Plan p; return p;
 }
@@ -340,6 +341,7 @@ RunResult execute(const Plan &p, bool tracing) {
     else if (p.mode == "lz4") run_lz4(p);
     else if (p.mode == "lz4c") run_lz4c(p);
     else if (p.mode == "conc") run_conc(p);
+    else if (p.mode == "concneg") run_concneg(p);
     RunResult r; r.cls = g_run.viol_class; r.detail = g_run.viol_detail; r.hash = g_run.log.h; r.steps = g_steps - s0; r.nontrivial = g_nontrivial; r.events = g_run.events;
     return r;
 }
